@@ -58,6 +58,12 @@ def dh_bits(dpf, sap, btf=0, a=0, g=0, poc=0, dst=2305678, src=2301234, tail8=0)
     return bitarray(s + "0" * 16)
 
 
+def bits_of_bytes(b):
+    x = bitarray()
+    x.frombytes(b)
+    return x
+
+
 def build_alphabet():
     out = {}
     cc = 1
@@ -68,6 +74,14 @@ def build_alphabet():
     data("VH", B.flc_group(), DataTypes.VoiceLCHeader)
     data("VH2", B.flc_unit(), DataTypes.VoiceLCHeader)
     data("VT", B.flc_group(terminator=True), DataTypes.TerminatorWithLC)
+    # every other full-LC opcode the library can parse as a voice LC header / terminator: talker alias (non-ASCII octets), GPS info
+    from okdmr.dmrlib.etsi.layer2.pdu.full_link_control import FullLinkControl as _FLC
+    ta = bitarray("0" + "0" + "000100" + "00000000" + "10" + "00110" + "1") + bits_of_bytes(bytes([0xC3, 0xA9, 0x80, 0xFF, 0x41, 0x9E])) + bitarray("0" * 24)
+    data("VH_TA", _FLC.from_bits(ta), DataTypes.VoiceLCHeader)
+    tb = bitarray("0" + "0" + "000101" + "00000000") + bits_of_bytes(bytes([0xE6, 0x97, 0xA5, 0xFE, 0x81, 0x00, 0x7F])) + bitarray("0" * 24)
+    data("VT_TA", _FLC.from_bits(tb), DataTypes.TerminatorWithLC)
+    gps = bitarray("0" + "0" + "001000" + "00000000" + "0000" + "011" + format(0x1ABCDEF, "025b") + format(0x923456, "024b") + "0" * 24)
+    data("VH_GPS", _FLC.from_bits(gps), DataTypes.VoiceLCHeader)
     voc = bitarray(("1100101" * 31)[:216])
     out["VS"] = (B.voice_sync_bits(voc).tobytes(), BurstTypes.Vocoder)
     out["VE"] = (B.voice_emb_bits(voc, cc, 0, 1, bitarray("1010" * 8)).tobytes(), BurstTypes.Vocoder)
@@ -92,7 +106,7 @@ def build_alphabet():
 
 ALPHA = {}
 PARSED = {}
-CORE = ["VH", "VT", "VS", "VE", "DH_U1", "DH_U2", "DH_C1", "DH_IP1", "PRE2", "CSBK_X", "R12_0", "R12_X", "R34"]
+CORE = ["VH", "VT", "VS", "VE", "DH_U1", "DH_U2", "DH_C1", "DH_IP1", "PRE2", "CSBK_X", "R12_0", "R12_X", "R34", "VH_TA", "VT_TA"]
 
 
 def parse_alphabet():
